@@ -38,18 +38,19 @@ type clientPublishQOS1Transaction struct {
 func newClientPublishQOS1Transaction(ctx context.Context, h *handler1, msgID uint16, topicID uint16) *clientPublishQOS1Transaction {
 	tLog := h.log.WithTag(fmt.Sprintf("PUBLISH1c(%d)", msgID))
 	tLog.Debug("Created.")
-	return &clientPublishQOS1Transaction{
-		TimedTransaction: transactions.NewTimedTransaction(
-			ctx, h.cfg.RetryDelay,
-			func() {
-				h.transactions.Delete(msgID)
-				tLog.Debug("Deleted.")
-			},
-		),
+	t := &clientPublishQOS1Transaction{
 		handler: h,
 		log:     tLog,
 		topicID: topicID,
 	}
+	t.TimedTransaction = transactions.NewTimedTransaction(
+		ctx, h.cfg.RetryDelay,
+		func() {
+			h.transactions.DeleteTransaction(msgID, t)
+			tLog.Debug("Deleted.")
+		},
+	)
+	return t
 }
 
 func (t *clientPublishQOS1Transaction) Puback(mqPuback *mqPkts.PubackPacket) error {
